@@ -468,11 +468,12 @@ impl VarIntEncoder {
             let prev_value = result[result.len() - 1];
             let next_value = if (encoded_delta & 1) == 0 {
                 // Positive delta
-                prev_value + (encoded_delta >> 1)
+                prev_value.checked_add(encoded_delta >> 1)
             } else {
                 // Negative delta
-                prev_value - (encoded_delta >> 1)
-            };
+                prev_value.checked_sub(encoded_delta >> 1)
+            }
+            .ok_or_else(|| ZiporaError::invalid_data("Delta sequence value out of range"))?;
             
             result.push(next_value);
             offset += delta_bytes;
@@ -502,7 +503,9 @@ impl VarIntEncoder {
         // Read deltas
         for _ in 1..count {
             let (delta, delta_bytes) = self.decode_zigzag_i64(&data[offset..])?;
-            let next_value = result[result.len() - 1] + delta;
+            // The encoder's `values[i] - values[i-1]` wraps for distant values (release
+            // builds); wrapping here restores them and cannot overflow on damaged input.
+            let next_value = result[result.len() - 1].wrapping_add(delta);
             result.push(next_value);
             offset += delta_bytes;
         }
